@@ -350,6 +350,53 @@ def _from_random_check(out, seed, n):
         if fails:
             out.violation({"from_random": {"lo": lo, "hi": hi, "r": [r0, r1], "grid": use_grid, "k": k,
                                            "seed": seed}, "fails": sorted(set(fails))})
+    # curvilinear grids: the droplets are points of the disc / ball / cylinder the grid describes, in Cartesian
+    # coordinates of the grid's dimension
+    from pde import CylindricalSymGrid, PolarSymGrid, SphericalSymGrid
+
+    for k in range(max(4, n // 4)):
+        kind = k % 4
+        rad = rng.uniform(1.0, 6.0)
+        zlo = rng.uniform(-3, 3)
+        zhi = zlo + rng.uniform(1.0, 6.0)
+        inner = rng.choice([0.0, 0.0, rad * rng.uniform(0.1, 0.6)])
+        if kind == 0:
+            g, dim = PolarSymGrid((inner, rad) if inner else rad, 4), 2
+        elif kind == 1:
+            g, dim = SphericalSymGrid((inner, rad) if inner else rad, 4), 3
+        else:
+            g, dim = CylindricalSymGrid(rad, (zlo, zhi), 4, periodic_z=(kind == 3)), 3
+        r0 = rng.uniform(0.05, 0.5)
+        r1 = r0 + rng.choice([0, rng.uniform(0, 0.5)])
+        cls = rng.choice([SphericalDroplet, DiffuseDroplet])
+        npr = np.random.default_rng(seed * 104729 + k)
+        fails = []
+        try:
+            em = Emulsion.from_random(rng.randint(1, 10), g, (r0, r1) if r1 > r0 else r0,
+                                      remove_overlapping=rng.random() < 0.5, droplet_class=cls, rng=npr)
+        except Exception as exc:  # noqa: BLE001
+            em = []
+            fails.append(f"from_random raised {type(exc).__name__}")
+        out.evaluations += 1
+        for d in em:
+            pos = np.asarray(d.position, float)
+            if not (r0 <= d.radius <= r1):
+                fails.append("radius-out-of-range")
+            if type(d) is not cls:
+                fails.append("wrong-class")
+            if pos.shape != (dim,) or d.dim != dim:
+                fails.append(f"droplet of dimension {pos.shape} on a grid of dimension {dim}")
+                continue
+            eps = 1e-12 * max(1.0, rad)
+            if kind in (0, 1):
+                rr = float(np.linalg.norm(pos))
+                if not (inner - eps <= rr <= rad + eps):
+                    fails.append("position-outside-region")
+            else:
+                if float(np.hypot(pos[0], pos[1])) > rad + eps or not (zlo - eps <= pos[2] <= zhi + eps):
+                    fails.append("position-outside-region")
+        if fails:
+            out.violation({"from_random": {"grid": repr(g), "r": [r0, r1], "k": k, "seed": seed}, "fails": sorted(set(fails))})
 
 
 def run(out: core.Outcome) -> None:
